@@ -102,8 +102,17 @@ def make_case(rng, line, action, nth=None):
     return {'seed': rng.randrange(1 << 30), 'min_part': 8, 'config': cfg, 'transfers': [t], 'yield': {'p': rng.choice([0.0, 0.05]), 'window': w}}
 
 
-def cases(rng, action, n_random, core_reps=1, nths=(0, 1)):
+def cases(rng, action, n_random, core_reps=1, nths=(0, 1), all_lines=False):
     out = []
+    if all_lines:
+        # every statement line of every concurrency-relevant function x every nth: a systematic one-preemption sweep at line
+        # granularity (core lines get extra repetitions with different kinds / configurations)
+        core = set(core_lines())
+        for line in candidate_lines():
+            for nth in nths:
+                for _ in range(core_reps if line in core else 1):
+                    out.append(make_case(rng, line, action, nth))
+        return out
     for line in core_lines():
         for nth in nths:
             for _ in range(core_reps):
